@@ -456,13 +456,13 @@ def explore(ctx, name, tier):
             steps_per_operation=counts, window_steps=[len(x) for x in windows],
             one_preemption_schedules=one, schedules_total=len(schedules), sequential_answers=answers)
     pairs_seen = ctx.extra.setdefault('_pairs', set())
-    slice_end = time.time() + ctx.extra.get('_slice', 1e9)
+    slice_end = ctx.clock() + ctx.extra.get('_slice', 1e9)
     for i, plan in enumerate(schedules):
         if not ctx.mine(i):
             continue
         if ctx.out_of_time('schedules of ' + name):
             break
-        if time.time() > slice_end:
+        if ctx.clock() > slice_end:
             if ('time slice of ' + name) not in ctx.shortened:
                 ctx.shortened.append('time slice of ' + name)
             break
@@ -682,7 +682,7 @@ def run(ctx):
         for j, name in enumerate(names):
             # every scenario gets its share of what is left of the budget
             if ctx.deadline is not None:
-                ctx.extra['_slice'] = max(1.0, (ctx.deadline - time.time() - 4) / (len(names) - j))
+                ctx.extra['_slice'] = max(1.0, (ctx.deadline - ctx.clock() - 4) / (len(names) - j))
             try:
                 explore(ctx, name, ctx.tier)
             finally:
